@@ -23,6 +23,38 @@ class Gen:
         """returns (P lines, Q lines): a construct and its hand-expanded equivalent"""
         r = self.rng
         k = r.random()
+        if depth == 0 and r.random() < 0.10:
+            k9 = r.random()
+            if k9 < 0.35:
+                # a local label built by @label inside an @each body that itself defines the global labels: the local belongs
+                # to the global label of its own repetition (the body is body[X := t] written out)
+                self.kinds.add("label-in-each")
+                names = [self.fresh("fe") for _ in range(r.randrange(1, 4))]
+                g0, var = self.fresh("fz"), self.fresh("NM")
+                p = ["%s:" % g0, "@each %s , { %s }" % (var, " ".join(names)), "%s:" % var, '@label { ".lo" "op" }:', "@dw .loop", "@endeach"]
+                q = ["%s:" % g0]
+                for nm in names:
+                    q += ["%s:" % nm, ".loop:", "@dw .loop"]
+                return p, q
+            if k9 < 0.6:
+                # ... and inside a braced macro argument that is replayed under the label the macro defines
+                self.kinds.add("label-in-argument")
+                g0, m, g1 = self.fresh("fz"), self.fresh("prc"), self.fresh("fe")
+                p = ["%s:" % g0, "@macro %s, 2, pnm, pbody" % m, "pnm:", "pbody", "@endmacro",
+                     '%s %s, { @label { ".lo" "op" }: @dw .loop }' % (m, g1)]
+                q = ["%s:" % g0, "%s:" % g1, ".loop:", "@dw .loop"]
+                return p, q
+            # a disabled conditional whose @endif comes out of @parse text / of a macro: @parse S is S written in place, an
+            # invocation is its body written in place, so the conditional ends there
+            self.kinds.add("endif-from-expansion")
+            l1, l2 = self.dbline(), self.dbline()
+            if k9 < 0.75:
+                return ["@if 0", l1, '@parse "@endif"', l2], [l2]
+            m = self.fresh("eo")
+            if k9 < 0.9:
+                return ["@macro %s, 0" % m, "@endif", "@endmacro", "@if 0", l1, m, l2], [l2]
+            l3 = self.dbline()
+            return ["@macro %s, 0" % m, "@endif", "@endmacro", "@if 1", l1, "@if 0", l2, m, l3, "@endif"], [l1, l3]
         if k < 0.16 or depth >= 3:
             l = self.dbline(); return [l], [l]
         if k < 0.36:
